@@ -49,7 +49,7 @@ def with_decoy(prof, run_seed: int, tier: str, cfg: dict, ops: list):
     """
     In a quarter of the runs of profiles that work on one document, a second document of the same kind is
     opened and edited FIRST and stays open (and under the continuous invariant) while the generated history
-    runs on the other one: whatever the library keeps per process instead of per document - a class
+    runs on the other one, and its own history continues in the middle of and after the other's: whatever the library keeps per process instead of per document - a class
     attribute, a module-level memo, a cache keyed by table id (ids repeat across documents built from the
     same template) - then shows up as one document's edits in the other. The decoy history is the prefix of
     another history of the same profile; ops are total, so any prefix of any history is a valid history.
@@ -70,22 +70,33 @@ def with_decoy(prof, run_seed: int, tier: str, cfg: dict, ops: list):
 
     if public(cfg2) != public(cfg):
         return cfg, ops  # a different stratum (other aspects / flags): its ops are not meant for this configuration
-    pre = [dict(o) for o in ops2[: rng.randint(4, 14)] if o.get("op") not in ("drop",) and not o.get("fault")]
+    usable = [dict(o) for o in ops2 if o.get("op") not in ("drop",) and not o.get("fault")]
+    k1 = rng.randint(4, 14)
+    k2 = k1 + rng.randint(0, 6)
+    k3 = k2 + rng.randint(0, 6)
+    pre, mid, suf = usable[:k1], usable[k1:k2], usable[k2:k3]
     if not any(o.get("op") in ("new_doc", "open_fixture") for o in pre[:1]):
         return cfg, ops
-    out = []
-    for o in pre:
-        o["d"] = 0
-        out.append(o)
+    # the decoy's history continues in the middle of and after the other document's: two documents whose edits interleave
+    main = []
     for o in ops:
         o = dict(o)
         if "d" in o or o.get("op") in ("restart",):
             o["d"] = o.get("d", 0) + 1
+        main.append(o)
+    cut = rng.randint(1, max(1, len(main)))
+    out = []
+    for o in pre + main[:cut]:
         out.append(o)
+    for part, tail in ((mid, main[cut:]), (suf, [])):
+        out.extend(part)
+        out.extend(tail)
+    for o in pre + mid + suf:
+        o["d"] = 0
     for i, o in enumerate(out):
         o["id"] = i
     cfg = dict(cfg)
-    cfg["decoy_ops"] = len(pre)
+    cfg["decoy_ops"] = [len(pre), len(mid), len(suf), cut]
     return cfg, out
 
 
